@@ -11,6 +11,8 @@ EXTENDS GlomData
 
 TLeaf == [k |-> "T"]
 SLeaf == [k |-> "spec"]
+OLeaf == [k |-> "T0"]            \* T[0]: a T leaf with a recorded operation (its evaluation is a nested arg_val)
+TgtOf(leaf, tgt) == IF leaf.k = "T0" THEN VStr("T") ELSE tgt    \* targets are the string "TGT": T[0] is "T"
 Called == VStr("called")
 
 Al(h, cell) == [heap |-> Append(h, cell), a |-> Len(h) + 1]
@@ -25,7 +27,7 @@ FillPairs(h, items, tgt, i, acc) ==
            rv == FillV(rk.heap, items[i][2], tgt)
        IN FillPairs(rv.heap, items, tgt, i + 1, SetKey(acc, rk.v, rv.v))
 FillV(h, v, tgt) ==
-  IF v.k \in {"T", "spec"} THEN [heap |-> h, v |-> tgt]
+  IF v.k \in {"T", "spec", "T0"} THEN [heap |-> h, v |-> TgtOf(v, tgt)]
   ELSE IF v.k = "fn" THEN [heap |-> h, v |-> Called]
   ELSE IF IsRef(v) THEN
     LET c == h[v.a] IN
@@ -48,7 +50,7 @@ ArgPairs(h, items, tgt, memo, i, acc) ==
            rv == ArgV(rk.heap, items[i][2], tgt, rk.memo)
        IN ArgPairs(rv.heap, items, tgt, rv.memo, i + 1, SetKey(acc, rk.v, rv.v))
 ArgV(h, v, tgt, memo) ==
-  IF v.k \in {"T", "spec"} THEN [heap |-> h, v |-> tgt, memo |-> memo]
+  IF v.k \in {"T", "spec", "T0"} THEN [heap |-> h, v |-> TgtOf(v, tgt), memo |-> memo]
   ELSE IF IsRef(v) THEN
     LET c == h[v.a] IN
     IF c.cls \in {"list", "dict"} THEN
@@ -67,7 +69,7 @@ ArgV(h, v, tgt, memo) ==
 RECURSIVE SameShape(_, _, _, _, _, _, _)
 SameShape(sh, sv, rh, rv, tgt, argpos, d) ==
   IF d = 0 THEN TRUE
-  ELSE IF sv.k \in {"T", "spec"} THEN rv = tgt
+  ELSE IF sv.k \in {"T", "spec", "T0"} THEN rv = TgtOf(sv, tgt)
   ELSE IF sv.k = "fn" THEN (IF argpos THEN rv = sv ELSE rv = Called)
   ELSE IF IsRef(sv) THEN
     /\ IsRef(rv)
